@@ -25,7 +25,7 @@ ASSUMPTIONS = [
     "cases whose input satisfies the predicate of an open known finding are "
     "not executed (counted under excluded_known)",
 ]
-EXHAUSTIVE = ()
+EXHAUSTIVE = ()   # the loop-shape family is enumerated completely, see counters
 
 
 def run_case(case, ctx=None):
@@ -92,6 +92,15 @@ def run_shard(ctx):
             except Violation as v:
                 ctx.violation(case, str(v))
                 return
+    # exhaustive loop/break family (832 definitions, complete sets, k=2)
+    for tag, case in pvcase.loop_shape_cases(ctx.seed, ctx.shard,
+                                             ctx.nshards):
+        ctx.count("loop_shapes_enumerated")
+        try:
+            run_case(case, ctx)
+        except Violation as v:
+            ctx.violation(case, f"[loop shape {tag}] " + str(v))
+            return
     n = 150 if ctx.tier == "quick" else 4000
     ctx.run_given(pvcase.cases(), lambda c: run_case(c, ctx), n,
                   shrinker=pvcase.shrinker)
